@@ -139,7 +139,7 @@ mod icu_locid_stub {
 // ---------------------------------------------------------------------------------------------
 
 const FAMILIES: [&str; 11] = ["plural", "plural_plain", "plural_ordinal", "plural_count_number", "plural_count_currency", "number", "currency", "date", "time", "datetime", "list"];
-const PLACEMENTS: [&str; 12] = ["plain-variable-in-default", "literal-elsewhere", "literal-in-default", "none", "default-top", "nondefault-only", "subkey-depth2", "range-branch", "plural-form", "fk-target", "second-namespace", "surplus-only"];
+const PLACEMENTS: [&str; 13] = ["range-in-both-used-in-the-later-one", "plain-variable-in-default", "literal-elsewhere", "literal-in-default", "none", "default-top", "nondefault-only", "subkey-depth2", "range-branch", "plural-form", "fk-target", "second-namespace", "surplus-only"];
 
 fn user_value(family: &str, tag: &str) -> Vec<(String, Val)> {
     // entries (key names use base `K`)
@@ -216,6 +216,26 @@ fn place(p: &mut BTreeMap<FileKey, Vec<(String, Val)>>, family: &str, placement:
         "subkey-depth2" => {
             add(&ns1, "en", vec![(format!("{name}g"), Val::Sub(vec![("h".into(), Val::Sub(rename(user_value(family, &format!("en.{name}")), "leaf")))]))]);
             add(&ns1, "fr", vec![(format!("{name}g"), Val::Null)]);
+        }
+        // the key is a range in both locales (same count variable); only the later locale's branches use the family
+        "range-in-both-used-in-the-later-one" => {
+            if family.starts_with("plural") {
+                add(&ns1, "en", rename(user_value(family, &format!("en.{name}")), name));
+                add(&ns1, "fr", vec![plain("fr")]);
+            } else {
+                let inner = user_value(family, &format!("fr.{name}")).remove(0).1;
+                let mk = |fallback: Val| {
+                    Val::Range(RangeDecl {
+                        ty: None,
+                        branches: vec![
+                            Branch { value: Box::new(st("zero")), counts: vec![CountSpec::UInt(0)], map_form: false, value_first: false },
+                            Branch { value: Box::new(fallback), counts: vec![], map_form: false, value_first: false },
+                        ],
+                    })
+                };
+                add(&ns1, "en", vec![(name.to_string(), mk(s(vec![text(&format!("[en.{name}] ")), var("count")])))]);
+                add(&ns1, "fr", vec![(name.to_string(), mk(inner))]);
+            }
         }
         "range-branch" => {
             if family.starts_with("plural") {
@@ -561,7 +581,7 @@ fn c20(tier: Tier) -> i32 {
     rep.sample(json!({"uses": [["currency", "fk-target"]], "namespaced": true}));
     rep.sample(json!({"uses": [["plural", "surplus-only"], ["list", "range-branch"]], "expect": "list data only"}));
     let mut cov = serde_json::Map::new();
-    cov.insert("rule".into(), json!(format!("families {FAMILIES:?} x placements {PLACEMENTS:?} (the default locale prints the family's variable / the count plain and only the other locale uses it; the other locale / the default locale holds a non-string literal at the key; none; default locale top level; non-default locale only; subkey depth 2 with the other locale null; inside a range branch; inside a plural form; only as the target of a foreign key from another key/namespace; second namespace only; only in a surplus key the default locale lacks = unreachable): every single placement x namespaced or not x 7 locale sets (default first / last / unlisted, script+region names, names with variant subtags, locales whose files hold no literal text, locales that differ by a variant subtag only), and pairs of (family, placement) (quick: a quarter, thorough: all); plus ONE variable of one key carrying formatters of several families: every permutation of every subset of <= 3 (thorough 4) of the 6 formatter families x 4 spreads over the locales (all in the default's string; first in the default, rest in the other locale; all in the other locale with the variable plain in the default; inside a subkey with the last only in the other locale) x namespaced or not; plus every way of spreading plural / number / currency / date / list over three namespaces a < b < c or leaving them out (4^5 projects; quick: at most one left out); oracle: characteristic data key of a family (plurals/cardinal@1 for cardinal and plurals/ordinal@1 for ordinal plurals - required by the kind in use, forbidden without any plural -, list/and@1, datetime/timesymbols@1, currency/essentials@1, decimal/symbols@1 for number-or-datetime) requested iff a reachable key uses the family in some locale (model: union over locales of the resolved trees of the default locale's keys); the driver build_datagen_driver() returns holds exactly the derived keys and the configured language identifiers, build_datagen_driver_with_options([o]) for each of the 5 options holds exactly the derived keys plus the option's own; get_locales / get_locales_langids == configured set, get_namespaces == configured list, files_paths complete; distinct_nontrivial = distinct used-family sets")));
+    cov.insert("rule".into(), json!(format!("families {FAMILIES:?} x placements {PLACEMENTS:?} (a range in both locales whose branches use the family in the later locale only; the default locale prints the family's variable / the count plain and only the other locale uses it; the other locale / the default locale holds a non-string literal at the key; none; default locale top level; non-default locale only; subkey depth 2 with the other locale null; inside a range branch; inside a plural form; only as the target of a foreign key from another key/namespace; second namespace only; only in a surplus key the default locale lacks = unreachable): every single placement x namespaced or not x 7 locale sets (default first / last / unlisted, script+region names, names with variant subtags, locales whose files hold no literal text, locales that differ by a variant subtag only), and pairs of (family, placement) (quick: a quarter, thorough: all); plus ONE variable of one key carrying formatters of several families: every permutation of every subset of <= 3 (thorough 4) of the 6 formatter families x 4 spreads over the locales (all in the default's string; first in the default, rest in the other locale; all in the other locale with the variable plain in the default; inside a subkey with the last only in the other locale) x namespaced or not; plus every way of spreading plural / number / currency / date / list over three namespaces a < b < c or leaving them out (4^5 projects; quick: at most one left out); oracle: characteristic data key of a family (plurals/cardinal@1 for cardinal and plurals/ordinal@1 for ordinal plurals - required by the kind in use, forbidden without any plural -, list/and@1, datetime/timesymbols@1, currency/essentials@1, decimal/symbols@1 for number-or-datetime) requested iff a reachable key uses the family in some locale (model: union over locales of the resolved trees of the default locale's keys); the driver build_datagen_driver() returns holds exactly the derived keys and the configured language identifiers, build_datagen_driver_with_options([o]) for each of the 5 options holds exactly the derived keys plus the option's own; get_locales / get_locales_langids == configured set, get_namespaces == configured list, files_paths complete; distinct_nontrivial = distinct used-family sets")));
     cov.insert("exhaustive".into(), json!(tier == Tier::Thorough));
     cov.insert("used_family_sets".into(), json!(*classes.lock().unwrap()));
     let _ = std::fs::remove_dir_all(&root);
